@@ -9,12 +9,13 @@ TEXT = {
  'C19': ('for every generated line: upper-case registers, lower-case size keywords, extra blanks/tabs, hexadecimal and signed numbers, index-first and displacement-first term order, disp[reg] form, st(0) for st, and the AT&T transliteration must yield the same SET of candidates', 'bounded metamorphic contract on asm/asm_att; the term-algebra proofs of DESIGN 5/C19 (dict_add/dict_sub) are not claimed'),
 }
 def _smt(run):
-    from checks import C02smt
+    from checks import C02smt, asmsse
     C02smt.ob_smt(run)
+    asmsse.ob(run, 'C02')      # MMX/SSE instructions: reference objdump
 
 if __name__ == '__main__':
     sys.exit(asmfam.run_family('C02', sys.argv[1:], 'other', RULE + '; ' + TEXT['C02'][0], TEXT['C02'][1],
                                ['specs/x86dec.py (reference disassembler)', 'bounded/asmgen.py printers (audited against GNU as: 16475 of 16878 generated lines assemble to an encoding of the intended instruction)'] + (['/usr/bin/as (GNU assembler, executed)'] if 'C02' in ('C03', 'C09') else []),
-                               ['MMX/SSE, relative branches and far pointers are outside the generator', 'lines the assembler rejects with ValueError are not constrained',
+                               ['MMX/SSE instructions are checked on 5 operand forms per table row and mandatory prefix with GNU objdump as the reference (checks/asmsse.py); relative branches and far pointers are outside the generator', 'lines the assembler rejects with ValueError are not constrained',
                                 'check_imm_size proof: callee contracts of the modint constructors/__int__ (proved in C14); the ordering methods of moduint are executed inline (float operand uint32.limit/2)'],
                                extra=_smt))
